@@ -133,7 +133,46 @@ def fam_mixed(rng):
     return rng.choice([fam_core, fam_cv, fam_cv_raw, fam_muwait, fam_waitn_cv])(rng)
 
 
-FAMILIES = {"core": fam_core, "cv": fam_cv, "cv_raw": fam_cv_raw, "muwait": fam_muwait, "debug": fam_debug,
+def fam_once(rng):
+    """2..4 callers mixing the four entry points on 1..3 once objects; o0 and o64 share an internal
+    once_sync slot (the slot is address/4 mod 64).  Variants 0/2 (no argument) only on o0."""
+    nf = rng.choice([2, 3, 3, 4])
+    objs = rng.choice([["o0"], ["o0", "o64"], ["o0", "o1", "o64"], ["o0", "o64", "o128"]])
+    lines = ["sem %s" % rng.choice(["counting", "binary"]), "objs mu=1 once=130"]
+    for f in range(nf):
+        ops = []
+        for _ in range(rng.choice([1, 2, 3])):
+            o = rng.choice(objs)
+            v = rng.choice([0, 1, 2, 3]) if o == "o0" else rng.choice([1, 3])
+            ops.append("once %s %d" % (o, v))
+            if rng.random() < 0.2: ops.append("yield")
+        lines.append("fiber " + " ; ".join(ops))
+    return lines
+
+
+def fam_futex(rng):
+    """One waiter, 1..3 posters on one semaphore of the real nsync_semaphore_futex.c over the modelled
+    kernel futex; the number of posts covers the untimed waits, so every execution terminates."""
+    nposters = rng.choice([1, 2, 2, 3])
+    wops, need = [], 0
+    for _ in range(rng.choice([1, 2, 3])):
+        if rng.random() < 0.5:
+            wops.append("sem_p s0"); need += 1
+        else:
+            wops.append("sem_pd s0 %s" % rng.choice(["inf", "p1000", "p40000", "m5", "z"]))
+            need += 1   # a timed wait may consume a post
+    lines = ["sem counting", "objs mu=1 sem=1", "fiber " + " ; ".join(wops)]
+    posts = need + rng.choice([0, 0, 1])
+    per = [[] for _ in range(nposters)]
+    for i in range(posts):
+        per[rng.randrange(nposters)].append("sem_v s0")
+    for ops in per:
+        pre = ["yield"] * rng.randrange(0, 3)
+        lines.append("fiber " + " ; ".join(pre + ops if ops else pre + ["yield"]))
+    return lines
+
+
+FAMILIES = {"once": fam_once, "futex": fam_futex,"core": fam_core, "cv": fam_cv, "cv_raw": fam_cv_raw, "muwait": fam_muwait, "debug": fam_debug,
             "waitn_cv": fam_waitn_cv, "mixed": fam_mixed}
 
 
